@@ -10,16 +10,19 @@ NOTE = ("trusted: gosym interpreter and simplifier (cross-checked on every run b
 
 # id -> (claimed text, design_ref) ; absent => not_applicable with reason
 CLAIMED = {
+ "C02": ("the real parseEvents run on every history derivable from the unit grammar of the property (tx closed by XID / COMMIT / ROLLBACK, DDL, autocommitted rows, statement-format DML in and out of BEGIN..COMMIT, rotation) with U<=2 units (thorough 3) and up to 2 ignorable events (GTID, previous-GTIDs, unknown event type, SAVEPOINT/flush/empty statements) inserted at every position: one handler call per committed unit, exactly at the moment its commit event has been read from the channel, with exactly its changes in order (empty for ROLLBACK); plus GetStatementCategory for every casing of all 12 keywords (symbolic case bits) and one-letter non-keywords", "DESIGN.md 3/C02"),
+ "C03": ("parseEvents on grammar-generated histories (U<=2, thorough 3) with SYMBOLIC 32-bit next-position fields, 64-bit rotate offsets and start offset: every delivered label proved equal to previous end label / initial position / rotation target, end label = commit event's next-position in the current file; two-run self-composition: a fresh streamer started at the end label of any delivered transaction k on the stream a master serves from there (fake ROTATE, FDE, suffix) delivers exactly transactions k+1.. with identical contents and labels", "DESIGN.md 3/C03"),
+ "C04": ("parseEvents on grammar-generated histories (U<=2; thorough 3) with one fault of each kind at every event index (handler rejects transaction j, mapper error, mapper column-count mismatch, invalid event, RAND/INTVAR/ROWS_QUERY event, accessor decode error, channel closed, context cancelled incl. both outcomes of the racing select): the returned position (which Stream stores for the next attempt) equals the end label of the last ACCEPTED transaction moved by rotations consumed after it, and no transaction is delivered after a failure. Stream's own write-back/attempt loop is covered by C07's harness when claimed", "DESIGN.md 3/C04"),
  "C09": ("(a) cellLength == bytes consumed by CellBytes for every supported type over its whole metadata domain (metadata and cell bytes symbolic; NEWDECIMAL via concrete (p,s)); (b) binlogEvent.Rows on events from an independent writer: row count, presence bitmaps, NULL bitmaps and every before/after image byte-for-byte, images consumed exactly by the per-type length rule, for write/update/delete, v1/v2, 4/6-byte table ids, extra data, all presence/NULL patterns of 2-3 column tables and pattern-sampled 9/17-column tables, 0..2 rows", "DESIGN.md 3/C09"),
  "C10": ("CellBytes numeric cases against an independent two's-complement / unsigned reference for the ENTIRE 8/16/24/32/64-bit domains in both signedness modes (text must be canonical decimal that parses to the exact value), FLOAT/DOUBLE round-trip through strconv's documented shortest-representation contract, YEAR, BIT(1..64) with symbolic metadata, ENUM 1-2 bytes, SET 1..8 bytes; every cell byte is a solver variable", "DESIGN.md 3/C10"),
  "C11": ("CellBytes NEWDECIMAL for (p,s) pairs (quick: all p<=20 plus group-boundary precisions, 278 pairs; thorough: all 1580 valid pairs): every storage byte symbolic, every representable value; the text is scanned ('-', canonical integer digits, '.', exactly s digits) and every 9-digit group proved equal to the reference from MySQL decimal.c; cellLength agreement included", "DESIGN.md 3/C11"),
  "C12": ("CellBytes DATE/NEWDATE, old TIME/DATETIME/TIMESTAMP, TIMESTAMP2/DATETIME2/TIME2 with fsp 0..6: output text scanned field by field (separators, widths, digits) and every numeric field proved equal to a reference decoder written from MySQL's my_time.c, for all cell bytes denoting valid values (all 2^24..2^48 raw values symbolic); TIMESTAMP fields are the Local-zone calendar fields (uninterpreted functions of (zone, instant))", "DESIGN.md 3/C12"),
  "C13": ("CellBytes for VARCHAR/VAR_STRING/STRING/TINY..LONG BLOB/GEOMETRY with symbolic metadata (decides 1..4 prefix bytes), symbolic prefix and payload in buffers of 40 and 300 bytes (thorough 1200): value is non-nil, has exactly the logged length and its i-th byte is the logged byte for a universally quantified index i; consumed = prefix+length; cellLength agrees", "DESIGN.md 3/C13"),
- "C15": ("binlogEvent.TableMap/TableID on events from an independent writer: names (0..255 bytes), flags, 4/6-byte table ids, 1-2 (thorough 3) columns over ALL pairs of the 31 supported types with symbolic metadata bytes (byte order per type), nullability bits, trailing optional-metadata bytes, and 250/251/252 (thorough 300/600) columns with multi-byte column counts. Attribution/caching in parseEvents is covered by the event-model harness (see C02/C04 family) when claimed", "DESIGN.md 3/C15"),
+ "C15": ("binlogEvent.TableMap/TableID on events from an independent writer: names (0..255 bytes), flags, 4/6-byte table ids, 1-2 (thorough 3) columns over ALL pairs of the 31 supported types with symbolic metadata bytes (byte order per type), nullability bits, trailing optional-metadata bytes, and 250/251/252 (thorough 300/600) columns with multi-byte column counts. Second half (VH_C15_Cache): parseEvents with two table ids, re-announcements with changed column types inside and across transactions: rows attributed to the announced table, decoded with the most recent table map, column names from the mapper by ordinal, mapper consulted once per id with the announced names; column-count mismatch -> error (C04 fault kind 2)", "DESIGN.md 3/C15"),
  "C16": ("header accessors and Format/Rotate/Query/IntVar/Rand on events from an independent writer with every field symbolic: format description (server version 0/5/50 bytes, header-size tables of 27/38 (thorough 165/255) entries, checksum byte, version!=4 and header length<19 rejected), rotate (64-bit position, names 0..16 bytes), query (all MySQL-order subsets of status variables 0,1,6|2,3,4,5,7,8..20 with arbitrary payloads, db 0/3 (thorough ..255) bytes, SQL 0/5 (thorough 70000) bytes, charset iff Q_CHARSET_CODE), intvar/rand; each for checksum off / CRC32 (4 arbitrary trailing bytes) / undefined and for both flavors' StripChecksum", "DESIGN.md 3/C16"),
  "C18": ("Mysql56GTIDSet.AddGTID/ContainsGTID/Contains/Equal from ARBITRARY canonical pre-states: interval lists of length 0..3 (thorough 0..5) with symbolic 63-bit bounds under the canonical-form invariant, 1-3 SIDs, both map iteration orders; AddGTID result proved equal to the union for a universally quantified probe element, canonical again, original map and slices unchanged; Contains/Equal proved equal to a finite interval characterisation which is itself linked to the element-wise meaning by solver lemmas; plus sequences of 2-3 (thorough 5) AddGTID from the empty set", "DESIGN.md 3/C18"),
  "C19": ("round trips String()->parser and EncodeGTID->DecodeGTID for ALL 16-byte SIDs and sequence numbers 1..2^63-1 (MySQL 5.6) and all domain/server/sequence values (MariaDB; one field full-range per root), text and SID-block round trips of 5.6 sets (<=2x2 intervals quick, 3x3 thorough; text bounds <1000, block bounds full range), GTID / PREVIOUS_GTIDS / MariaDB GTID events from an independent writer, MariaDB set AddGTID (one position per domain, larger sequence wins, receiver's visible elements unchanged) and ContainsGTID/Contains for sets of 0..3 members with symbolic members", "DESIGN.md 3/C19"),
- "C17": ("IsValid <=> len>=19 && length field == len, and all header accessors agree with the header bytes, for every byte string of each length 0..64 (thorough 0..300): every byte is a solver variable, every obligation is an unsat query", "DESIGN.md 3/C17"),
+ "C17": ("IsValid <=> len>=19 && length field == len, and all header accessors agree with the header bytes, for every byte string of each length 0..64 (thorough 0..300): every byte is a solver variable, every obligation is an unsat query; gate in parseEvents: an invalid event injected at every index of grammar-generated histories (U<=2) ends the stream with an error, no method other than IsValid is called on it, nothing is delivered afterwards, position stays at the last accepted boundary", "DESIGN.md 3/C17"),
 }
 NA_DEFAULT = "not yet reached by the encoder (build in progress)"
 NA = {}
